@@ -80,7 +80,7 @@ def check_values(res, f, label, merged_truths=None):
     shanks_ = first('channel_shanks.npy')
     shanks_ = shanks_.squeeze() if shanks_ is not None else np.zeros(nc)
     for c, (D, expw) in c08.reference_cluster_waveforms(T, st, sc, pos, shanks_, extra['n_closest']).items():
-        if c < Cw.shape[0] and not np.allclose(Cw[c][:, D], expw, rtol=1e-5, atol=1e-6):
+        if c < Cw.shape[0] and not np.allclose(Cw[c][:, D], expw, rtol=1e-11, atol=1e-12):
             bad.append(('clusters.waveforms', 'cluster-waveform-definition',
                         {'cluster': int(c), 'channels': D, 'mean': describe(expw)},
                         describe(Cw[c][:, D])))
